@@ -334,6 +334,35 @@ func (ex *Exec) calleeGhosts(spec *FuncSpec, info calleeInfo, env *Env) {
 			env.vars[cl.Name] = ex.freshVal("cg."+cl.Name, t)
 		}
 	}
+	// locals of the callee that its postconditions mention (e.g. a WaitGroup it
+	// allocates): existentially quantified for the caller
+	if info.fn != nil {
+		mentioned := ""
+		for _, cl := range spec.Clauses {
+			if cl.Kind == "ensures" || cl.Kind == "maintains" {
+				mentioned += " " + cl.Text
+			}
+		}
+		for _, b := range info.fn.Blocks {
+			for _, in := range b.Instrs {
+				a, ok := in.(*ssa.Alloc)
+				if !ok || a.Comment == "" {
+					continue
+				}
+				if _, bound := env.vars[a.Comment]; bound || !strings.Contains(mentioned, a.Comment) {
+					continue
+				}
+				et := a.Type().(*types.Pointer).Elem()
+				if isStructVal(et) {
+					et = a.Type()
+				}
+				s := sortOf(et)
+				if s == SInt || s == SBool || s == SStr || s == SSlice {
+					env.vars[a.Comment] = ex.freshVal("cl."+a.Comment, et)
+				}
+			}
+		}
+	}
 	// loop ghosts that the callee's postconditions mention (witnesses)
 	for _, l := range spec.Loops {
 		for _, cl := range l.Clauses {
@@ -430,6 +459,15 @@ func (ex *Exec) applyContract(spec *FuncSpec, info calleeInfo, c *ssa.CallCommon
 					ex.pendingBinds = append(ex.pendingBinds, cl)
 					continue
 				}
+				if len(cl.Exprs) == 1 {
+					var idx int
+					fmt.Sscanf(cl.Exprs[0].(*SIntLit).Val, "%d", &idx)
+					if idx >= len(args) {
+						ex.fail("bind %s: call has no argument %d", cl.Name, idx)
+						continue
+					}
+					v = args[idx]
+				}
 				t := ex.V.specType(cl.Type, ex.pkg)
 				v.Ty = t
 				// on paths that do not execute the call the ghost keeps its (arbitrary) initial value
@@ -468,14 +506,48 @@ func (ex *Exec) applyContract(spec *FuncSpec, info calleeInfo, c *ssa.CallCommon
 	}
 	ex.pendingBinds = nil
 	if spec.Attrs["maypanic"] == "true" {
-		p := ex.D.Fresh("panicked", SBool)
-		ex.setHeap(ex.cur, "$panicking", p)
-		ex.sawMayPanic = true
+		ex.branchOnPanic(pos)
 	}
 	if spec.Attrs["noreturn"] == "true" {
 		ex.assumeHere(False)
 	}
 	return res
+}
+
+// branchOnPanic: the call just made may panic. On the panic path the rest of
+// the function is skipped and only the deferred calls registered so far run
+// (LIFO); if one of them recovers, the function returns normally from there,
+// so the postconditions are checked on that path too. The normal path
+// continues under the assumption that the call returned.
+func (ex *Exec) branchOnPanic(pos token.Pos) {
+	ex.sawMayPanic = true
+	if ex.fn.Signature.Results().Len() > 0 {
+		ex.fail("call that may panic inside a function with results (recover path not modelled)")
+		return
+	}
+	p := ex.D.Fresh("panicked", SBool)
+	normal := ex.cur.clone()
+	normalPc := ex.pc
+	// panic path
+	ex.pc = And(normalPc, p)
+	ex.setHeap(ex.cur, "$panicking", True)
+	for i := len(ex.defers) - 1; i >= 0; i-- {
+		d := ex.defers[i]
+		ex.callWith(d.instr.Common(), d.instr, d.instr.Pos(), d.args, &d.fnval)
+	}
+	if ex.safety {
+		ex.oblige("panic:escapes", ex.spec.Safety, Not(ex.getHeap(ex.cur, "$panicking", SBool)), pos, "a panic of this call is recovered by a deferred call registered before it")
+	}
+	ex.assumeHere(Not(ex.getHeap(ex.cur, "$panicking", SBool)))
+	ex.returns++
+	ex.checkPost(nil, pos)
+	// normal path
+	ex.cur = normal
+	ex.setHeap(ex.cur, "$panicking", False)
+	r := ex.D.Fresh("r.nopanic", SBool)
+	ex.assume(Eq(r, And(ex.reach[ex.curBlock], Not(p))))
+	ex.reach[ex.curBlock] = r
+	ex.pc = And(normalPc, Not(p))
 }
 
 func (ex *Exec) allocatedDeep(v Val, t types.Type, st *State) {
@@ -900,10 +972,6 @@ func (ex *Exec) checkPost(res []Val, pos token.Pos) {
 			ex.oblige(fmt.Sprintf("ensures%d@ret%d", ord, ex.returns), ex.tagsOf(c), g.T, pos, c.Text)
 			ord++
 		}
-	}
-	if ex.safety && ex.sawMayPanic {
-		p := ex.getHeap(ex.cur, "$panicking", SBool)
-		ex.oblige("panic:escapes", ex.spec.Safety, Not(p), pos, "no panic escapes the function")
 	}
 	ex.checkFrame(env, pos)
 	// vacuity: this return must be reachable
